@@ -352,7 +352,6 @@ pub fn run_case(report: &Report, kind: Kind, case: &Case) -> Result<(), Fail> {
     let mut labels = feats.labels();
     labels.push(kind.name());
     report.case(if feats.nontrivial() { Some(text.as_str()) } else { None }, &labels);
-    report.sample(kind.name(), 2, || json!({"text": text}));
     if let Err(f) = self_check(kind.dk(), &case.doc, &toks, &text) {
         return Err(attach_input(f, kind.name(), &text));
     }
@@ -372,9 +371,21 @@ pub fn run_case(report: &Report, kind: Kind, case: &Case) -> Result<(), Fail> {
             if feats.nontrivial() { Some(mtext.as_str()) } else { None },
             &[if compared { "mutant:accepted-by-both" } else { "mutant:rejected-or-excluded" }],
         );
-        report.sample(if compared { "mutant-accepted" } else { "mutant-rejected" }, 2, || json!({"text": mtext}));
     }
     Ok(())
+}
+
+/// Evidence samples from a deterministic single-threaded pre-pass (the parallel workers would race).
+pub fn samples(report: &Report, name: &str, strategy: &BoxedStrategy<Case>) {
+    for case in vcore::generate_values(vcore::derive_seed(report.seed, name, 999), 2, strategy) {
+        let (toks, text) = render::render(&case.doc, &case.tape);
+        report.sample(name, 2, || json!({"text": text}));
+        if let Some(m) = case.muts.first() {
+            let mut tape = render::Tape::new(&case.mut_tape);
+            let mtext = render::layout(&render::mutate(&toks, m), &mut tape);
+            report.sample("mutant", 2, || json!({"text": mtext, "mutation": format!("{m:?}")}));
+        }
+    }
 }
 
 pub fn run_input(report: &Report, input: &Json) -> Result<(), Fail> {
@@ -412,11 +423,12 @@ pub fn run(args: &Args) {
     report.run_regressions(|input| run_input(&report, input));
 
     let cfg = GenCfg::full();
-    let workers = vcore::num_workers();
+    let workers = 8; // fixed: the result must not depend on the machine
     for (kind, name, cases) in [
         (Kind::Executable, "executable", args.tier.pick(4000u32, 120_000)),
         (Kind::Schema, "schema", args.tier.pick(4000u32, 120_000)),
     ] {
+        samples(&report, kind.name(), &case_strategy(kind, cfg, 4));
         let found = vcore::run_prop_parallel(
             &report,
             name,
